@@ -256,7 +256,7 @@ Section C14_maintenance.
   Variable id_secure : N -> bytes -> bool.
   Variable cfg : config.
   Variable now : Z.
-  Variable answers : node -> bool.
+  Variable answers : node -> ping_outcome.
   Variable refresh : nat -> list node -> list node.
 
   Theorem C14_maint_pass_bounded nodes :
